@@ -86,6 +86,69 @@ MAP = 'holopy.core.mapping.'
 MODEL = 'holopy.inference.model.Model'
 
 
+def no_class_level_state(check, prog):
+    """G12: what a model knows about its parameters lives on the instance.  A
+    mutable class attribute (`Model._model_parameters = {}`) that a method
+    updates in place -- instead of rebinding it on the instance -- is one object
+    shared by every model of every subclass: the scaling prior of one AlphaModel
+    would show up as a parameter of every model built afterwards."""
+    import ast
+    from .c01 import instance_assigned
+    roots = ['holopy.inference.model.Model', 'holopy.core.mapping.Mapper']
+    classes = sorted({c for r in roots for c in prog.subclasses(r)} | set(roots))
+    MUT = ('append', 'extend', 'update', 'pop', 'setdefault', 'insert', 'clear',
+           'add', 'remove', 'popitem')
+    n_attrs, bad = 0, []
+    for cq in classes:
+        if cq not in prog.classes:
+            continue
+        c = prog.classes[cq]
+        inst = instance_assigned(prog, cq)
+        for name, fd in c.methods.items():
+            if not fd.args.args:
+                continue
+            me = fd.args.args[0].arg
+            for n in ast.walk(fd):
+                tgt = None
+                if isinstance(n, ast.Subscript) and isinstance(n.ctx, (ast.Store, ast.Del)):
+                    tgt = n.value
+                elif isinstance(n, ast.Call) and isinstance(n.func, ast.Attribute) and \
+                        n.func.attr in MUT:
+                    tgt = n.func.value
+                while isinstance(tgt, ast.Subscript):
+                    tgt = tgt.value
+                if not (isinstance(tgt, ast.Attribute) and isinstance(tgt.value, ast.Name)
+                        and tgt.value.id == me):
+                    continue
+                hit = prog.lookup(cq, tgt.attr)
+                if not (hit and hit[0] == 'classattr' and isinstance(
+                        hit[2], (ast.Dict, ast.List, ast.Set, ast.Call))):
+                    continue
+                n_attrs += 1
+                if tgt.attr in inst:
+                    continue       # rebound on the instance somewhere in the MRO
+                bad.append((cq, name, tgt.attr, hit[1],
+                            '%s:%d' % (c.module.relpath, n.lineno)))
+    mutable = sorted({(q.rpartition('.')[2], a) for q in classes if q in prog.classes
+                      for a, v in prog.classes[q].class_attrs.items()
+                      if isinstance(v, (ast.Dict, ast.List, ast.Set))})
+    check.note('mutable class attributes of the model classes', str(mutable))
+    check.floor('mutable class attributes of the model classes', len(mutable), 1)
+    for cq, name, attr, owner, where in bad:
+        check.bad('G12-no-class-level-state', '%s.%s updates %s.%s' % (
+            cq.rpartition('.')[2], name, owner.rpartition('.')[2], attr),
+            '%s.%s updates the class attribute %s.%s in place and no constructor '
+            'rebinds it on the instance: it is one dictionary for every model -- an '
+            'AlphaModel with a prior on alpha leaves that prior in it, and every '
+            'ExactModel built afterwards has a fourth parameter for three priors '
+            '(scatterer_from_parameters by name raises KeyError)' % (
+                cq.rpartition('.')[2], name, owner.rpartition('.')[2], attr), where)
+    if not bad:
+        check.ok('G12-no-class-level-state', 'model classes',
+                 'no method updates a mutable class attribute that is not rebound on '
+                 'the instance (%d classes)' % len(classes))
+
+
 def run(check, prog):
     check.explanation = (
         'read_map / edit_map_indices / Mapper are evaluated into terms; their '
@@ -108,6 +171,7 @@ def run(check, prog):
     # template it was built from (shared with C19)
     from . import c19
     c19.scatterer_no_memo(check, prog)
+    no_class_level_state(check, prog)
     # "applies the transformations": a derived prior must denote the arithmetic
     # that was written (shared rule with C14)
     from . import c14
